@@ -34,7 +34,19 @@ Definition seg_step (stack : list str) (seg : str) : list str :=
   else if str_eqb seg s_dotdot then tl stack
   else seg :: stack.
 
-Definition segs_of (p : str) : list str := rev (fold_left seg_step (split_ch c_slash p) []).
+(* s.split(c), written without an accumulator *)
+Fixpoint splitc (c : N) (s : str) : list str :=
+  match s with
+  | [] => [[]]
+  | x :: s' =>
+      if N.eqb x c then [] :: splitc c s'
+      else match splitc c s' with
+           | h :: t => (x :: h) :: t
+           | [] => [[x]]
+           end
+  end.
+
+Definition segs_of (p : str) : list str := rev (fold_left seg_step (splitc c_slash p) []).
 Definition of_segs (l : list str) : str := c_slash :: join [c_slash] l.
 (* normal form of an absolute path *)
 Definition norm (p : str) : str := of_segs (segs_of p).
@@ -86,11 +98,8 @@ Section Paths2.
     expand_token resolve1 resolve2 home cwd true (rstrip [c_slash] p).
 
   (* the absolute path a target denotes, read lexically (the specification side of C09) *)
-  Definition full (cwd p : str) : str :=
-    match classify p with
-    | KHome => home ++ tl p
-    | _ => pjoin cwd p
-    end.
+  Definition is_home (p : str) : bool := str_eqb p [c_tilde] || prefixb s_home_slash p.
+  Definition full (cwd p : str) : str := if is_home p then home ++ tl p else pjoin cwd p.
   Definition nf (cwd p : str) : str := norm (full cwd p).
 End Paths2.
 
